@@ -135,6 +135,11 @@ def build_all(jobs=None):
             rc, out = sh('coq_makefile -f _CoqProject -o Makefile', cwd=COQ)
             info.log += out
         rc, out = sh('timeout 1500 make -k -j%d' % (jobs or NPROC), cwd=COQ, timeout=1600)
+        if rc == 124:
+            # a time-out on a loaded machine is not a failed proof: go on from
+            # where the first run stopped, with more time
+            info.log += out[-300:] + '\n[make timed out; second run]\n'
+            rc, out = sh('timeout 3000 make -k -j%d' % (jobs or NPROC), cwd=COQ, timeout=3100)
         info.log += out
         if rc != 0:
             info.ok = False
